@@ -1,7 +1,7 @@
 """C25 — DeltaSTN decides temporal consistency exactly.
 
 B (exhaustive + seeded): every sequence of <= 3 (quick) / <= 4 (thorough) insertions add(x, y, b) over 3 events
-with bounds in {-2..2} (including x == y), plus seeded longer integer/rational histories over 4 events with
+with bounds in {-2..2} (including x == y), plus seeded longer (5-14 insertions) integer/rational histories over 4 and 5 events with
 copies taken at random points, on the real DeltaSimpleTemporalNetwork against Floyd-Warshall / Bellman-Ford:
 check_stn() iff the difference constraints have a solution; while consistent the reported model satisfies
 every inserted constraint and is the least solution with all event times >= 0; a copy evolves independently.
@@ -87,12 +87,15 @@ def bounded(tier, seed):
             break
     rng = random.Random(seed)
     ev4 = ["a", "b", "c", "d"]
-    for k in range(2000 if tier == "quick" else 30000):
-        n = rng.randint(4, 9)
-        rat = rng.random() < 0.4
+    ev5 = ev4 + ["e"]
+    for k in range(12000 if tier == "quick" else 150000):
+        # dense histories: the same event is often improved twice within one propagation (diamonds)
+        evs = ev5 if k % 2 else ev4
+        n = rng.randint(5, 14)
+        rat = rng.random() < 0.3
         hist = []
         for _ in range(n):
-            x, y = rng.choice(ev4), rng.choice(ev4)
+            x, y = rng.choice(evs), rng.choice(evs)
             b = Fraction(rng.randint(-6, 8), 2) if rat else rng.randint(-3, 4)
             hist.append((x, y, b))
         cp = {rng.randrange(n) for _ in range(2)} if rng.random() < 0.5 else None
@@ -105,9 +108,24 @@ def bounded(tier, seed):
                 break
         if len(samples) < 2:
             samples.append({"history": [[x, y, str(b)] for x, y, b in hist]})
+    # propagation-heavy family: 5 events, only non-positive bounds between distinct events, 6-9 insertions -- one insertion
+    # often lowers an event twice along two paths (diamonds in the incremental Bellman-Ford)
+    ev5 = ["a", "b", "c", "d", "e"]
+    for k in range(25000 if tier == "quick" else 250000):
+        if len(failures) >= 6:
+            break
+        hist = []
+        for _ in range(rng.randint(6, 9)):
+            x, y = rng.sample(ev5, 2)
+            hist.append((x, y, rng.randint(-4, 0)))
+        evals += 1
+        nontrivial += 1
+        bad = run_history(hist, {rng.randrange(len(hist))} if k % 5 == 0 else None)
+        if bad:
+            failures.append({"what": bad[0], "concrete": {"history": [[x, y, str(b)] for x, y, b in hist]}, "observed": bad})
     return {"evaluations": evals, "distinct_nontrivial": nontrivial, "failures": failures[:6],
             "rule": f"all insertion histories of length <= {L} over 3 events x bounds -2..2 (self constraints included), plus seeded "
-                    f"histories of 4-9 insertions over 4 events (integers and halves) with copies; non-trivial = history touching "
+                    f"histories of 5-14 insertions over 4-5 events (integers and halves) with copies; non-trivial = history touching "
                     f"more than one event pair", "samples": samples, "exhaustive": True,
             "bound": f"length <= {L} exhaustive over 3 events; longer histories sampled"}
 
